@@ -214,17 +214,24 @@ def check_resolve_blobs(rep, facts, rule):
     item = LR.loop_item(loop)
     if item is None:
         raise AnalysisError('resolve_blobs: the loop variable that holds the blob ({}) is not understood'.format(unparse(loop.target)))
-    out_name = None
-    for s in fn.body:
-        if isinstance(s, ast.Return) and isinstance(s.value, ast.Name):
-            out_name = s.value.id
-    if out_name is None:
+    # the buffer that is returned: `return output` after the loop, or in the loop's else clause (the loop ran to its end)
+    from ..pathwalk import always_raises
+    rets = [s for s in list(fn.body) + list(loop.orelse) if isinstance(s, ast.Return)]
+    names = {s.value.id for s in rets if isinstance(s.value, ast.Name)}
+    all_rets = [n for n in ast.walk(fn) if isinstance(n, ast.Return)]
+    if len(names) != 1 or len(rets) != len(all_rets) or any(not isinstance(s.value, ast.Name) for s in rets):
         raise AnalysisError('resolve_blobs: the returned value is not a local buffer the rule can follow')
+    out_name = next(iter(names))
+    after = fn.body[fn.body.index(loop) + 1:] if loop in fn.body else []
     data = ('attr', item, 'data')
     n_ok = 0
     for p in paths:
         if p.end == 'raise':
             continue
+        if p.end == 'break' and after and always_raises(after):
+            continue        # the loop is left early and what follows it raises: no output on this path
+        if p.end == 'break':
+            raise AnalysisError('resolve_blobs: the item loop is left early (break) on the path [{}]: the items after it are not emitted by this loop'.format(p.cond_text()[-80:]))
         adds, other = [], None
         for e in p.events:
             if e[0] == 'mcall' and e[1] in (('lv', out_name), ('name', out_name)):
@@ -383,7 +390,18 @@ def check_align(rep, facts, rule):
                     elif cnt[1][0] == 'name' and cnt[1][1] in facts.classes and facts.is_subclass(cnt[1][1], 'Align') and len(cnt[3]) == 2 and cnt[3][0] == pa.item and not cnt[4]:
                         pos = cnt[3][1]
                 if pos is not None:
-                    if pos != ('lv', pa.pos_var) and not plain_offset_value(pos):
+                    pass_params = {a.arg for a in pa.loop_fn.args.args + pa.loop_fn.args.kwonlyargs}
+
+                    def understood(v):
+                        # locals, parameters of the pass and integers combined by + - *: a value the rule can compare with the offset
+                        if is_const(v):
+                            return isinstance(v[1], int)
+                        if v[0] == 'lv' or (v[0] == 'name' and len(v) == 2 and v[1] in pass_params):
+                            return True
+                        if v[0] == 'bin' and v[1] in ('+', '-', '*'):
+                            return understood(v[2]) and understood(v[3])
+                        return False
+                    if pos != ('lv', pa.pos_var) and not plain_offset_value(pos) and not understood(pos):
                         raise AnalysisError('resolve_aligns: the offset handed to resolution_size ({}) is not followed back to the running offset'.format(show(pos)[:60]))
                     rep.check(pos == ('lv', pa.pos_var), rule + '.at-start', 'padding = item.resolution_size(offset at which the align item starts)',
                               lambda node=node, cnt=cnt: Finding(rule + '.at-start', 'resolve_aligns', node,
@@ -423,6 +441,7 @@ def run(repo, tier):
                 pa = LR.pass_analysis(facts, name, frozenset(inc))
                 LR.check_conservation(rep, pa, 'R9.bytes', movers is None or name in movers)
                 LR.check_order_only(rep, pa, 'R9.order')
+                LR.check_shared_buffers(rep, facts, pa, 'R9.own-payload')
                 rep.count('pass analyses')
             rep.attempt(one)
         final = steps[-1][3] if steps else set()
